@@ -348,6 +348,20 @@ def run(ctx):
                         for t_ in (none_t or {other_}):
                             if _remainder_by_minus_one(f, t_, c):
                                 handled = True
+                    if not handled:
+                        # or the divisor -1 never reaches the call (`I128(_, -1) => Ok(0)` matched first)
+                        div_ = {o.key() for o in flow.origins(f, c.args[1])} if len(c.args) > 1 else set()
+                        for (sb_, labels_) in flow.guards(f, c.bb):
+                            t_ = f.term(sb_)
+                            p_ = op_place(t_.get("discr", {})) if t_["k"] == "switch" else None
+                            if p_ is None:
+                                continue
+                            if not ({o.key() for o in flow.origins(f, t_["discr"])} & div_):
+                                continue
+                            minus1 = {"-1", str(2 ** 128 - 1), str(2 ** 64 - 1)}
+                            has_arm = any(str(v_) in minus1 for v_, _x in t_["arms"])
+                            if has_arm and not (set(labels_) & minus1):
+                                handled = True
                     ctx.ob("C08.N9.remainder-by-minus-one-is-exact", "%s%s|%s" % (tag, op, c.name.split("::")[-1]), handled,
                            "`i128::MIN %% -1` is reported as an overflow (the quotient overflows) although the remainder, 0, is "
                            "exact and fits: the None arm of %s must return 0 for a divisor of -1" % c.name.split("::")[-1], f.where(c.bb))
